@@ -13,6 +13,9 @@ import (
 type c03Case struct {
 	Carrier string
 	S       Script
+	// Calls > 1: the script is run that many times in a row on the same channel and server, the handler
+	// reusing its metadata objects (S.StaticMD); every call must look like the first
+	Calls int `json:",omitempty"`
 }
 
 // mdDeviation compares everything metadata-related with the model; "" = as expected.
@@ -104,10 +107,34 @@ func propC03(c c03Case) *Outcome {
 	}
 	o.class("late-header-op=%v", late)
 	o.NonTrivial = c03NonTrivial(s)
-	obs := runScript(s, c.Carrier, carrierOpts{})
+	var later []*Obs
+	var obs *Obs
+	if c.Calls > 1 {
+		o.class("repeated-calls-with-static-metadata")
+		all := runScriptRepeat(s, c.Carrier, carrierOpts{}, c.Calls)
+		obs, later = all[0], all[1:]
+	} else {
+		obs = runScript(s, c.Carrier, carrierOpts{})
+	}
 	o.Observed = obs
 	dev := mdDeviation(s, e, obs)
 	if dev == "" {
+		for i, lo := range later {
+			ldev := mdDeviation(s, e, lo)
+			if ldev == "" {
+				continue
+			}
+			o.Observed = map[string]interface{}{"first": obs, "later": lo}
+			if sig := kfHTTPTrailerNotUTF8(c.Carrier, s, e, lo); sig != "" && knownOpen("C03", sig) {
+				break
+			}
+			refs := runScriptRepeat(s, cGRPC, carrierOpts{}, c.Calls)
+			if len(refs) <= i+1 || mdDeviation(s, e, refs[i+1]) != "" {
+				o.Inconclusive = "model disagrees with reference transport on a repeated call; SUT deviation was: " + ldev
+				return o
+			}
+			return o.failf("%s/%s: call %d of %d on the same channel (handler reuses its metadata objects): %s", c.Carrier, s.Kind, i+2, c.Calls, ldev)
+		}
 		if sampleForReference(s) {
 			o.class("model-also-validated-on-grpc-go")
 			if rdev := mdDeviation(s, e, runScript(s, cGRPC, carrierOpts{})); rdev != "" {
@@ -137,6 +164,10 @@ func genC03(t *rapid.T) c03Case {
 	c := c03Case{
 		Carrier: rapid.SampledFrom(sutCarriers).Draw(t, "carrier"),
 		S:       genScript(t, scriptGenOpts{MaxMsg: 200, MDKeys: 3, PlainStatus: true}),
+	}
+	if rapid.IntRange(0, 5).Draw(t, "repeat") == 0 {
+		c.Calls = rapid.IntRange(2, 3).Draw(t, "calls")
+		c.S.StaticMD = true
 	}
 	return c
 }
